@@ -6,7 +6,7 @@
    the regenerated summary of the constructor the predicate's DSL path is wired to. *)
 From Coq Require Import List ZArith Bool String Lia.
 From RG.Base Require Import Outcome.
-From RG.Filters Require Import ExprFacts FilterIR FilterAlgebra Predicates FilterEval.
+From RG.Filters Require Import ExprFacts FilterIR FilterAlgebra Predicates FilterEval FileFacts.
 From RGW Require Import Gen_FilterTables Gen_FilterPreds Inst_C02.
 Import ListNotations.
 Local Open Scope string_scope.
@@ -66,6 +66,25 @@ Proof. vm_compute. reflexivity. Qed.
 Theorem C02_wiring_ok : wiring_okb gen_tables gen_load_ctor gen_ctors gen_dsl_paths = true.
 Proof. exact wiring_ok. Qed.
 Print Assumptions C02_wiring_ok.
+
+(* File().Imports(p): the file's import set is the set of the VALUES of its import path literals (interpreted or raw, with or
+   without escapes; whatever name, `.` or `_` stands before them; in whatever declaration), so the predicate accepts exactly
+   when some import spec unquotes to p -- for every list of specs and every path *)
+Theorem C02_file_imports_iff : forall (unquote : string -> option string) specs p,
+  file_imports unquote specs p = true <-> exists s, In s specs /\ unquote s = Some p.
+Proof. exact file_imports_iff. Qed.
+Print Assumptions C02_file_imports_iff.
+
+Theorem C02_file_imports_grouping_irrelevant : forall (unquote : string -> option string) a b p,
+  file_imports unquote (a ++ b) p = file_imports unquote a p || file_imports unquote b p.
+Proof. exact file_imports_app. Qed.
+Print Assumptions C02_file_imports_grouping_irrelevant.
+
+Theorem C02_file_facts_as_audited :
+  file_facts_okb gen_file_facts = true /\
+  match assoc "makeFileImportsFilter" gen_ctors with Some ci => String.eqb (ci_cond ci) doc_imports_closure | None => false end = true.
+Proof. exact (conj file_facts_ok imports_closure_ok). Qed.
+Print Assumptions C02_file_facts_as_audited.
 
 Theorem C02_underlying_flag_ok : underlying_okb = true.
 Proof. exact underlying_ok. Qed.
@@ -270,4 +289,9 @@ Example c02_helper_samples :
   find_sink (PCall (CSignature ["string"; "int"] false "") (Some 1%nat) false) = "int" /\
   find_sink (PCall (CSignature ["string"; "[]int"] true "int") (Some 3%nat) false) = "int" /\
   find_sink (PCall (CSignature ["string"; "[]int"] true "int") (Some 1%nat) true) = "[]int".
+Proof. vm_compute. repeat split. Qed.
+
+Example c02_raw_import_path :
+  file_imports demo_unquote ["`fmt`"; "`io/fs`"] "fmt" = true /\ file_imports demo_unquote ["`fmt`"; "`io/fs`"] "`fmt`" = false /\
+  file_imports demo_unquote ["`io/fs`"] "io" = false.
 Proof. vm_compute. repeat split. Qed.
